@@ -10,6 +10,9 @@
 #include <map>
 #include <fstream>
 #include <iostream>
+#ifdef HEX_VERIF
+#include <functional>
+#endif
 #include <boost/format.hpp>
 
 #include "hex.hpp"
@@ -356,9 +359,29 @@ public:
           throw std::runtime_error("invalid instruction");
       }
       cycles++;
+#ifdef HEX_VERIF
+      if (verifObserver && !verifObserver(*this)) {
+        break;
+      }
+#endif
     }
     return exitCode;
   }
+
+#ifdef HEX_VERIF
+  // Verification hooks: access to the architectural state and an observer
+  // that is invoked after every executed instruction and may stop the run.
+  uint32_t &verifPC() { return pc; }
+  uint32_t &verifAreg() { return areg; }
+  uint32_t &verifBreg() { return breg; }
+  uint32_t &verifOreg() { return oreg; }
+  uint32_t *verifMemory() { return memory.data(); }
+  size_t verifMemorySizeWords() const { return MEMORY_SIZE_WORDS; }
+  bool &verifRunning() { return running; }
+  size_t &verifCycles() { return cycles; }
+  int &verifExitCode() { return exitCode; }
+  std::function<bool(Processor&)> verifObserver;
+#endif
 };
 
 } // End namespace hexsim
